@@ -91,21 +91,21 @@ Section Reduce.
   Proof. reflexivity. Qed.
   Lemma inA_gt l p : l <> 1 -> active_in (reduce_reduce_in_A G l p) = Some (RTask "reduce" "C" [l - 1; 2 * p]).
   Proof.
-    intros H. unfold reduce_reduce_in_A. cbn [active_in d_guard d_then d_else]. unfold c_eq.
+    intros H. unfold reduce_reduce_in_A. cbn [active_in d_guard d_then d_else]. unfold c_eq. rewrite cb_0.
     destruct (1 =? l) eqn:E; [lia|]. reflexivity.
   Qed.
 
   Lemma inB_null l p : 1 <= l -> MT <= p * 2 ^ l + 2 ^ (l - 1) -> active_in (reduce_reduce_in_B G l p) = Some RNull.
   Proof.
     intros Hl H. unfold reduce_reduce_in_B. cbn [active_in d_guard d_then d_else]. gsimp.
-    rewrite !c_shl_1 by lia. unfold c_ge. destruct (MT <=? p * 2 ^ l + 2 ^ (l - 1)) eqn:E; [reflexivity|lia].
+    rewrite !c_shl_1 by lia. unfold c_ge. rewrite cb_0. destruct (MT <=? p * 2 ^ l + 2 ^ (l - 1)) eqn:E; [reflexivity|lia].
   Qed.
   Lemma inB_1 p : 2 * p + 1 < MT -> active_in (reduce_reduce_in_B G 1 p) = Some (RData "descA" [2 * p + 1; 0]).
   Proof.
     intros H. unfold reduce_reduce_in_B. cbn [active_in d_guard d_then d_else]. gsimp.
     rewrite !c_shl_1 by lia. change (2 ^ 1) with 2. change (2 ^ (1 - 1)) with 1.
-    unfold c_ge, c_eq, c_lt, c_ne. rewrite !c_band_cb.
-    destruct (MT <=? p * 2 + 1) eqn:E; [lia|]. cbn [cb Z.eqb].
+    unfold c_ge, c_eq, c_lt, c_ne. rewrite !c_band_cb, !cb_0.
+    destruct (MT <=? p * 2 + 1) eqn:E; [lia|].
     destruct (p * 2 + 1 <? MT) eqn:E2; [|lia]. reflexivity.
   Qed.
   Lemma inB_gt l p : 1 < l -> p * 2 ^ l + 2 ^ (l - 1) < MT ->
@@ -113,8 +113,8 @@ Section Reduce.
   Proof.
     intros Hl H. unfold reduce_reduce_in_B. cbn [active_in d_guard d_then d_else]. gsimp.
     rewrite !c_shl_1 by lia.
-    unfold c_ge, c_eq, c_lt, c_ne. rewrite !c_band_cb.
-    destruct (MT <=? p * 2 ^ l + 2 ^ (l - 1)) eqn:E; [lia|]. cbn [cb Z.eqb].
+    unfold c_ge, c_eq, c_lt, c_ne. rewrite !c_band_cb, !cb_0.
+    destruct (MT <=? p * 2 ^ l + 2 ^ (l - 1)) eqn:E; [lia|].
     destruct (1 =? l) eqn:E1; [lia|]. destruct (p * 2 ^ l + 2 ^ (l - 1) <? MT) eqn:E2; [|lia]. reflexivity.
   Qed.
 
@@ -149,7 +149,7 @@ Section Reduce.
         set (l' := Z.of_nat (S k)) in *.
         assert (El : l = l' + 1) by (subst l l'; lia).
         assert (Hl' : 1 <= l') by (subst l'; lia).
-        assert (Epow : 2 ^ l = 2 * 2 ^ l') by (rewrite El, Z.pow_succ_r by lia; reflexivity).
+        assert (Epow : 2 ^ l = 2 * 2 ^ l') by (rewrite El; apply Z.pow_succ_r; lia).
         assert (Hpos : 0 < 2 ^ l') by lia.
         cbn [rval]. rewrite inA_gt by lia.
         replace (l - 1) with l' by lia.
@@ -176,7 +176,7 @@ Section Reduce.
     Theorem reduce_root_fold :
       reduce_root_value op tl MT = fold1 op (map tl (zrange 0 (MT - 1))).
     Proof.
-      unfold reduce_root_value. fold G. unfold reduce_depth. gsimp. unfold c_clog2. fold d. fold G.
+      unfold reduce_root_value. change (reduce_depth (reduce_G_of MT)) with d. change (reduce_G_of MT) with G.
       pose proof d_nonneg as Hd. pose proof pow_d as Hp.
       replace (d + 1) with (Z.of_nat (S (Z.to_nat d))) by lia.
       rewrite rval_seg; [|lia|lia|lia|lia].
